@@ -43,6 +43,8 @@ pub struct Config {
     pub let_types: Vec<(String, String)>,
     /// R10: expand derive(Clone) of a fieldless enum into its definitional impl with `ensures r == *self` (verified by Verus)
     pub expand_clone: bool,
+    /// local `use` statements inside the body are dropped (they name external crates) and these are injected instead
+    pub inject_use: Vec<String>,
     /// R9: functions (by name) that return Vec after R9; `f(..).collect()` on them is the identity and is dropped
     pub vec_fns: Vec<String>,
     /// method renames `name` -> `new_name` (receiver-independent, checked by rustc in Verus)
@@ -155,6 +157,7 @@ impl Config {
         }
         c.iter_to_vec = item["iter_to_vec"].as_bool().unwrap_or(false);
         c.expand_clone = item["expand_clone"].as_bool().unwrap_or(false);
+        c.inject_use = strs(&item["inject_use"]);
         if let Some(m) = item["let_types"].as_object() {
             for (k, v) in m {
                 c.let_types.push((k.clone(), v.as_str().unwrap_or("").to_string()));
@@ -1873,6 +1876,18 @@ pub fn apply_to_fn(
     f.attrs.clear();
     if let Some(n) = &cfg.rename_fn {
         f.sig.ident = syn::Ident::new(n, Span::call_site());
+    }
+    // local `use` items: dropped, replaced by the recipe's (type-checked) ones
+    {
+        let before = f.block.stmts.len();
+        f.block.stmts.retain(|s| !matches!(s, syn::Stmt::Item(syn::Item::Use(_))));
+        if f.block.stmts.len() != before {
+            bump(counts, "R7.drop_local_use");
+        }
+        for (k, u) in cfg.inject_use.iter().enumerate() {
+            let tree: syn::ItemUse = syn::parse_str(&format!("use {};", u)).map_err(|e| format!("bad recipe: inject_use: {}", e))?;
+            f.block.stmts.insert(k, syn::Stmt::Item(syn::Item::Use(tree)));
+        }
     }
     // R1 / R6
     {
